@@ -98,7 +98,7 @@ func identName(base string, style int) string {
 	return base
 }
 
-var c01Locations = []string{"flat", "nested", "maven-main", "maven-test", "suffix-Test", "suffix-Tests", "gitignored", "testData", "non-java", "gitignored-file", "gitignored-glob"}
+var c01Locations = []string{"flat", "nested", "maven-main", "maven-test", "suffix-Test", "suffix-Tests", "gitignored", "testData", "non-java", "gitignored-file", "gitignored-glob", "gitignored-bare-dir", "beside-gitignored-dir"}
 
 // c01Unit generates one conventional compilation unit.
 func c01Unit(c *engine.C, idx int, forceMain bool) (cls *jg.Class, relPath string, isMain bool, needGitignore string) {
@@ -281,6 +281,12 @@ func c01Unit(c *engine.C, idx int, forceMain bool) (cls *jg.Class, relPath strin
 		relPath, needGitignore = file, file
 	case "gitignored-glob":
 		relPath, needGitignore = name+".gen.java", "*.gen.java"
+	case "gitignored-bare-dir":
+		// a pattern without a trailing slash matches the directory itself (and so everything below it)
+		relPath, needGitignore = filepath.Join("ignored", file), "ignored"
+	case "beside-gitignored-dir":
+		// a main file in a directory whose name merely starts with the name of an ignored directory that exists
+		relPath, isMain, needGitignore = filepath.Join("ignoredx", file), true, "ignored|+dir"
 	case "testData":
 		relPath = filepath.Join("testData", file)
 	case "non-java":
@@ -435,6 +441,10 @@ func c01GenMode(c *engine.C, mode string) engine.Case {
 	nontrivial := false
 	for i := 0; i < nUnits; i++ {
 		cls, relPath, isMain, gi := c01Unit(c, i, i == 0)
+		if strings.HasSuffix(gi, "|+dir") {
+			gi = strings.TrimSuffix(gi, "|+dir")
+			files = append(files, FileSpec{Path: "ignored/Hidden.java", Content: "package hidden;\n\nclass Hidden {\n}\n"})
+		}
 		if gi != "" {
 			gitignore = append(gitignore, gi)
 		}
